@@ -145,6 +145,20 @@ var (
 		MaxSecs: 4, Rets: []int{RetNone, RetReq, RetReq, RetNestedV},
 		FaultPct: 20, GatePct: 60, RetPct: 70, UnknownNamePct: 10, BadNMPct: 5,
 	}
+	ProfC07 = &Profile{
+		MinRules: 1, MaxRules: 5, SalSpan: 2,
+		Secs:    map[int]int{SecY: 5, SecUpd: 1},
+		MaxSecs: 3, Rets: []int{RetNone, RetNestedV, RetNestedV},
+		FaultPct: 0, GatePct: 50, RetPct: 70, UnknownNamePct: 10, BadNMPct: 0,
+	}
+	ProfC16 = &Profile{
+		MinRules: 1, MaxRules: 5, SalSpan: 2,
+		Secs:    map[int]int{SecY: 3, SecCall: 2},
+		MaxSecs: 2, Rets: []int{RetNone, RetNestedV},
+		FaultPct: 35, GatePct: 20, RetPct: 60, UnknownNamePct: 15, BadNMPct: 0,
+	}
+	clPoolMgmt  = []string{"query-disagrees", "instance-runs-stale-rules", "cleared-pool-call-failed", "mgmt-panic", "invalid-operation-accepted", "valid-operation-rejected"}
+	clVersions  = []string{"not-one-installed-version", "mgmt-panic", "invalid-text-accepted"}
 	clCapacity  = []string{"more-than-max-in-flight", "request-did-not-wait", "pool-capacity-lost"}
 	clIsolation = []string{"foreign-request-data", "stale-injected-key-visible", "result-map-modified-after-return", "request-data-modified-after-return",
 		"stray-event", "unscheduled-rule-ran", "event-after-return", "result-map"}
@@ -187,6 +201,11 @@ func init() {
 		FinalProbe: true, WaiterRound: true, NilTagPct: 40, Oracle: OracleC17})})
 	register(&PropDef{ID: "C06", Clauses: set(clIsolation, clContain), Run: w2(&W2Opt{Prof: ProfC06, Methods: allEngineMethods, MaxClients: 5, MaxReqs: 5,
 		OptPct: 50, Oracle: OracleC06})})
+	register(&PropDef{ID: "C07", Clauses: set(clVersions, clContain), Run: w2(&W2Opt{Prof: ProfC07, Methods: cat(allEngineMethods, []int{MPoolEMMulti, MPoolSelEM}), MaxClients: 4, MaxReqs: 4,
+		Admins: 2, MaxMgmt: 3, MgmtKinds: []int{OpFull, OpIncr, OpIncr, OpRemove}, InvalidPct: 15, UpdFromRule: true, Oracle: OracleC07})})
+	register(&PropDef{ID: "C16", Clauses: set(clPoolMgmt, clSpec, clContain), Run: func(plan, sched *simrt.Source, trace bool) *RunOut {
+		return RunW2Scripted(ProfC16, plan, sched, trace)
+	}})
 	register(&PropDef{ID: "C08", Run: RunW3Builder, Clauses: set(clRuleSet, clContain)})
 	register(&PropDef{ID: "C18", Run: w1(ProfC18), Clauses: set(clConc, clContain)})
 }
